@@ -124,6 +124,15 @@ func firstArg(args string) string {
 
 // luaBody returns the statements performing call k (index i) inside the
 // restricted context. F<i> and W<i> are defined outside.
+// noRead: reading from a handle made by io.popen(cmd, "w") blocks for ever in
+// golua (its reader is a pipe nobody writes to), so such handles are only closed.
+func noRead(k c08Call) string {
+	if shellFamily.MatchString(k.Fn) && strings.Contains(k.Args, `"w"`) {
+		return "true"
+	}
+	return "false"
+}
+
 func luaBody(i int, k c08Call) string {
 	F := fmt.Sprintf("F%d", i)
 	W := fmt.Sprintf("W%d", i)
@@ -135,7 +144,7 @@ func luaBody(i int, k c08Call) string {
 	wrapper := false
 	switch k.Spell {
 	case "direct":
-		return fmt.Sprintf("do local q = {%s(%s)}; emit('res', %d, true, q[1], q[2], q[3]); follow(q) end\n", F, k.Args, i)
+		return fmt.Sprintf("do local q = {%s(%s)}; emit('res', %d, true, q[1], q[2], q[3]); follow(q, %s) end\n", F, k.Args, i, noRead(k))
 	case "pcall":
 		if k.Args == "" {
 			expr = fmt.Sprintf("pcall(%s)", F)
@@ -174,7 +183,7 @@ func luaBody(i int, k c08Call) string {
 		expr = fmt.Sprintf("coroutine.resume(CO%d)", i)
 	case "load":
 		wrapper = true
-		src := fmt.Sprintf("local F, S, G, H, CTX, follow = ... local q = {F(%s)} emit('inner', %d, q[1], q[2], q[3]) follow(q) return q[1], q[2], q[3]", k.Args, i)
+		src := fmt.Sprintf("local F, S, G, H, CTX, follow = ... local q = {F(%s)} emit('inner', %d, q[1], q[2], q[3]) follow(q, %s) return q[1], q[2], q[3]", k.Args, i, noRead(k))
 		expr = fmt.Sprintf("pcall(load(%q), %s, S, G, H, CTX, follow)", src, F)
 	case "gsub":
 		wrapper = true
@@ -186,7 +195,7 @@ func luaBody(i int, k c08Call) string {
 	}
 	s := fmt.Sprintf("do local r = {%s}; emit('res', %d, r[1], r[2], r[3], r[4]);", expr, i)
 	if !wrapper {
-		s += " if r[1] then follow({r[2], r[3], r[4]}) end"
+		s += " if r[1] then follow({r[2], r[3], r[4]}, " + noRead(k) + ") end"
 	}
 	return s + " end\n"
 }
@@ -209,20 +218,25 @@ func luaProgram(c c08Case) string {
 	sb.WriteString("package.path = S .. '/?.lua'\n")
 	sb.WriteString("local H = io.open(G .. '/granted.txt', 'r+')\n")
 	sb.WriteString("local CTX = runtime.context()\n")
-	sb.WriteString(`local function follow(r)
+	sb.WriteString(`local function follow(r, noread)
   for i = 1, 3 do
     local v = r[i]
     if type(v) == 'function' then
       emit('follow-fn', pcall(v))
     elseif type(v) == 'userdata' and v ~= H and v ~= CTX and v ~= io.stdout and v ~= io.stderr and v ~= io.stdin then
-      emit('follow-ud', pcall(function() local s = v:read('a'); v:close(); return s end))
+      emit('follow-ud', pcall(function() local s = nil; if not noread then s = v:read('a') end; v:close(); return s end))
     end
   end
 end
 `)
 	for i, k := range c.Calls {
 		fmt.Fprintf(&sb, "local F%d = %s\n", i, k.Fetch)
-		fmt.Fprintf(&sb, "local function W%d() local q = {F%d(%s)}; emit('inner', %d, q[1], q[2], q[3]); follow(q); return q[1], q[2], q[3] end\n", i, i, k.Args, i)
+		switch k.Spell {
+		case "mm-wrap", "coroutine", "co-wrap", "co-outer", "gsub":
+		default:
+			continue
+		}
+		fmt.Fprintf(&sb, "local function W%d() local q = {F%d(%s)}; emit('inner', %d, q[1], q[2], q[3]); follow(q, %s); return q[1], q[2], q[3] end\n", i, i, k.Args, i, noRead(k))
 		if k.Spell == "co-outer" {
 			fmt.Fprintf(&sb, "local CO%d = coroutine.create(W%d)\n", i, i)
 		}
